@@ -14,6 +14,8 @@ macro_rules! dispatch {
 			"C04" => Some($f::<props::c04::C04>($($arg),*)),
 			"C05" => Some($f::<props::c05::C05>($($arg),*)),
 			"C06" => Some($f::<props::c06::C06>($($arg),*)),
+			"C07" => Some($f::<props::c07::C07>($($arg),*)),
+			"C08" => Some($f::<props::c08::C08>($($arg),*)),
 			"C09" => Some($f::<props::c09::C09>($($arg),*)),
 			"C10" => Some($f::<props::c10::C10>($($arg),*)),
 			"C11" => Some($f::<props::c11::C11>($($arg),*)),
